@@ -154,10 +154,14 @@ RouteFamily(route) ==
     [] route \in {"monoclinic_rad", "monoclinic_deg", "unique_monoclinic"} -> "monoclinic"
     \* respec_*: an existing, already used cell re-specified in place (set_vectors / set_lengths_and_angles)
     [] route \in {"vectors", "params_rad", "params_deg", "triclinic_rad", "triclinic_deg", "unique_triclinic",
-                  "respec_vectors", "respec_params", "params_rad_np", "params_deg_np"} -> "triclinic"
+                  "respec_vectors", "respec_params", "params_rad_np", "params_deg_np",
+                  \* *_rt: the unit keyword is a string made at run time; nudged_* / twin_*: a cell differing in the 7th digit was
+                  \* used first (and re-specified in place, or left alone next to a second object)
+                  "params_rad_rt", "params_deg_rt", "triclinic_rad_rt", "nudged_vectors", "nudged_params",
+                  "twin_vectors", "twin_params"} -> "triclinic"
     [] OTHER -> "unknown"
 (* routes that go through set_lengths_and_angles (lower triangular embedding) *)
-ParamsRoute(route) == route \notin {"vectors", "respec_vectors", "cubic", "orthorhombic", "orthorhombic_deg", "unique_cubic", "unique_orthorhombic"}
+ParamsRoute(route) == route \notin {"vectors", "respec_vectors", "nudged_vectors", "twin_vectors", "cubic", "orthorhombic", "orthorhombic_deg", "unique_cubic", "unique_orthorhombic"}
 
 (* ---- BigInt 3x3 (observed matrices, entries scaled by 2^K) ---------------- *)
 B3Mul(A, B) == [i \in Ix |-> [j \in Ix |->
